@@ -11,6 +11,7 @@ From Grex Require Import Base.Str Model.Config Model.Builder Model.Cluster Model
   Model.Pipeline Model.History.
 From Grex Require Import Proofs.NormaliseDet Proofs.Wrappers Proofs.PropsGlue.
 From GrexGen Require Import SrcBuilder.
+From Grex Require Model.SelfCheck Proofs.SelfCheckProps.
 
 Theorem C10_perm : forall isd c db sc ws1 ws2,
   (forall x, In x ws1 <-> In x ws2) -> build isd c db sc ws1 = build isd c db sc ws2.
@@ -79,6 +80,19 @@ Theorem C10_idempotent_normalise : forall c db ws,
   normalise c db (normalise c db ws) = normalise c db ws.
 Proof. exact normalise_idem. Qed.
 
+(* with the self-check computed inside the model (Model/SelfCheck.v) build has NO input besides the
+   configuration, the oracle data and the test cases, and it reads the test cases only through their
+   normal form: permutations and duplicates of the list cannot matter to the self-check either *)
+Theorem C10_closed_build_normal : forall isd is_ws c db ws ws',
+  normalise c db ws = normalise c db ws' ->
+  SelfCheck.build_closed isd is_ws c db ws = SelfCheck.build_closed isd is_ws c db ws'.
+Proof. exact SelfCheckProps.build_closed_normal. Qed.
+
+Theorem C10_closed_build_perm : forall isd is_ws c db ws1 ws2,
+  (forall x, In x ws1 <-> In x ws2) ->
+  SelfCheck.build_closed isd is_ws c db ws1 = SelfCheck.build_closed isd is_ws c db ws2.
+Proof. exact SelfCheckProps.build_closed_perm. Qed.
+
 Print Assumptions C10_perm.
 Print Assumptions C10_dup.
 Print Assumptions C10_permutation.
@@ -90,3 +104,5 @@ Print Assumptions C10_setters_commute.
 Print Assumptions C10_setters_commute_distinct.
 Print Assumptions C10_setter_idempotent.
 Print Assumptions C10_idempotent_normalise.
+Print Assumptions C10_closed_build_normal.
+Print Assumptions C10_closed_build_perm.
